@@ -35,6 +35,17 @@ def gen_case(rng, idx, tier):
                 P[i][0] += 1
         kind = "polyline"
         W = None
+        if rng.random() < 0.3:
+            # slow parametrisation: long knot spans and / or small geometry (|C'| down to ~1e-5)
+            ks = rng.choice([F(100), F(1000), F(1)])
+            gs = rng.choice([F(1), F(1, 1000), F(1, 100)])
+            if ks == 1 and gs == 1:
+                ks = F(1000)
+            U = [k * ks for k in U]
+            P = [[c * gs for c in pt] for pt in P]
+            kind = "polyline-slow"
+            dim = len(P[0])
+            far = [F(rng.randint(-25, 25), rng.choice([1, 2, 3])) * gs for _ in range(dim)]
     elif r < 0.68:
         nseg = rng.randint(2, 6)
         U = gen.kv(rng, p=1, nint=nseg - 1, maxmult=1)
@@ -59,6 +70,8 @@ def gen_case(rng, idx, tier):
         pt = ["pt", lib.enc([F(rng.randint(-200, 200)) for _ in range(dim)])]
     else:
         pt = ["pt", lib.enc([F(rng.randint(-25, 25), rng.choice([1, 2, 3])) for _ in range(dim)])]
+    if kind == "polyline-slow" and pt[0] == "pt":
+        pt = ["pt", lib.enc(far)]
     return {"U": lib.enc(U), "P": lib.enc(P), "W": lib.enc(W), "kind": kind, "point": pt, "numtype": rng.choice(["float", "float", "float", "frac"])}
 
 
@@ -116,9 +129,10 @@ def run_case(case, ctx):
     ctx.check(max(dists) - min(dists) <= 1e-6 * max(1.0, sc / 10), f"proj:unequal-distances:{kind}", f"returned parameters are not at the same distance: {dists}")
     dret = min(dists)
     if p == 1 and kind != "zero-segment":
+        kindp = "polyline-slow" if kind == "polyline-slow" else "polyline"
         ctx.count("polyline_minimum_checks")
         best = min(ref.seg_point_dist([float(c) for c in a], [float(c) for c in b], point)[0] for a, b in zip(rc.P, rc.P[1:]))
-        ctx.check(abs(dret - best) <= 1e-7 * (1 + best), f"proj:not-nearest:polyline:{mode}", f"returned distance {dret!r} but the polyline is at distance {best!r}", point=point, params=ts)
+        ctx.check(abs(dret - best) <= 1e-7 * (1 + best), f"proj:not-nearest:{kindp}:{mode}", f"returned distance {dret!r} but the polyline is at distance {best!r}", point=point, params=ts)
         if mode in ("on", "vertex"):
             ctx.count("on_curve")
             ctx.check(dret <= 1e-7 * sc, f"proj:on-curve-missed:{mode}", f"a point of the curve is projected at distance {dret!r}", point=point)
